@@ -15,69 +15,384 @@ theorem flushBuf_atts (buf : List α) (orc : List Outcome) :
     (∀ k, (flushBuf buf orc).1 = some k →
       (∀ a ∈ (flushBuf buf orc).2.2.1, a.err ≠ none) ∧
       ∃ a, (flushBuf buf orc).2.2.1.getLast? = some a ∧ a.err = some k) := by
-  sorry
+  induction orc with
+  | nil =>
+    unfold flushBuf
+    by_cases hb : buf.isEmpty
+    · have hb' : buf = [] := by simpa using hb
+      simp [hb']
+    · have hne : buf ≠ [] := by simpa using hb
+      simp only [hb]
+      refine ⟨fun _ _ => ⟨[], by simp, by simp⟩, fun h => absurd h hne, by simp⟩
+  | cons o os ih =>
+    unfold flushBuf
+    by_cases hb : buf.isEmpty
+    · have hb' : buf = [] := by simpa using hb
+      simp [hb']
+    · have hne : buf ≠ [] := by simpa using hb
+      simp only [hb]
+      cases o with
+      | ok => exact ⟨fun _ _ => ⟨[], by simp, by simp⟩, fun h => absurd h hne, by simp⟩
+      | err k => exact ⟨by simp, fun h => absurd h hne, by simp⟩
+      | intr =>
+        simp only [Bool.false_eq_true, if_false]
+        obtain ⟨ih1, ih2, ih3⟩ := ih
+        refine ⟨?_, fun h => absurd h hne, ?_⟩
+        · intro h _
+          obtain ⟨fs, e, hfs⟩ := ih1 h hne
+          refine ⟨⟨buf, some intrKind⟩ :: fs, by rw [e]; rfl, ?_⟩
+          intro a ha
+          simp only [List.mem_cons] at ha
+          rcases ha with rfl | ha
+          · exact ⟨rfl, by simp⟩
+          · exact hfs a ha
+        · intro k hk
+          obtain ⟨hall, a, hl, ha⟩ := ih3 k hk
+          refine ⟨?_, a, ?_, ha⟩
+          · intro b hb
+            simp only [List.mem_cons] at hb
+            rcases hb with rfl | hb
+            · simp
+            · exact hall b hb
+          · rw [List.getLast?_cons, hl]; rfl
 
 theorem frame_eq_nil_iff (c : Cfg α) (hne : c.ending ≠ []) (p : List (List α)) :
     frame c p = [] ↔ p = [] := by
-  sorry
+  constructor
+  · intro h
+    cases p with
+    | nil => rfl
+    | cons m ms =>
+      exfalso
+      simp [frame, hne] at h
+  · intro h; rw [h]; rfl
+
+
+/-! ### helpers -/
+
+theorem specFlush_none (c : Cfg α) (p : List (List α)) (orc : List Outcome)
+    (h : (flushBuf (frame c p) orc).1 = none) :
+    specFlush c p orc = (.ok 0, [], (flushBuf (frame c p) orc).2.2.1.map (fun a => .group p a.err),
+      (flushBuf (frame c p) orc).2.2.2) := by
+  simp only [specFlush, h]
+
+theorem specFlush_some (c : Cfg α) (p : List (List α)) (orc : List Outcome) (k : Nat)
+    (h : (flushBuf (frame c p) orc).1 = some k) :
+    specFlush c p orc = (.err k, p, (flushBuf (frame c p) orc).2.2.1.map (fun a => .group p a.err),
+      (flushBuf (frame c p) orc).2.2.2) := by
+  simp only [specFlush, h]
+
+theorem lines_group_err (p : List (List α)) (l : List (Attempt α)) (h : ∀ a ∈ l, a.err ≠ none) :
+    (l.map (fun a => SAtt.group p a.err)).flatMap SAtt.lines = [] := by
+  induction l with
+  | nil => rfl
+  | cons a l ih =>
+    have ha := h a (by simp)
+    have ih' := ih (fun b hb => h b (by simp [hb]))
+    cases a with
+    | mk pl e =>
+      cases e with
+      | none => exact absurd rfl ha
+      | some k => simp only [List.map_cons, List.flatMap_cons, SAtt.lines, ih', List.append_nil]
+
+theorem lines_bypass (m : List α) (l : List (Attempt α)) :
+    (l.map (fun a => SAtt.bypass m a.err)).flatMap SAtt.lines = [] := by
+  induction l with
+  | nil => rfl
+  | cons a l ih => simp only [List.map_cons, List.flatMap_cons, SAtt.lines, ih, List.append_nil]
+
+theorem getLast_group_err (p : List (List α)) (l : List (Attempt α)) (k : Nat)
+    (h : ∃ a, l.getLast? = some a ∧ a.err = some k) :
+    ∃ a, (l.map (fun a => SAtt.group p a.err)).getLast? = some a ∧ a.err = some k := by
+  obtain ⟨a, hl, ha⟩ := h
+  exact ⟨.group p a.err, by rw [List.getLast?_map, hl]; rfl, ha⟩
 
 /-! ### flush -/
 
 theorem specFlush_nil (c : Cfg α) (orc : List Outcome) : specFlush c [] orc = (.ok 0, [], [], orc) := by
-  sorry
+  simp [specFlush, flushBuf_nil]
 
 theorem specFlush_ok (c : Cfg α) (p : List (List α)) (orc : List Outcome) (n : Nat)
     (h : (specFlush c p orc).1 = .ok n) : (specFlush c p orc).2.1 = [] ∧ n = 0 := by
-  sorry
+  cases hr : (flushBuf (frame c p) orc).1 with
+  | none =>
+    rw [specFlush_none c p orc hr] at h ⊢
+    simp only [Res.ok.injEq] at h
+    exact ⟨rfl, h.symm⟩
+  | some k =>
+    rw [specFlush_some c p orc k hr] at h
+    simp at h
 
 theorem specFlush_err (c : Cfg α) (p : List (List α)) (orc : List Outcome) (k : Nat)
     (h : (specFlush c p orc).1 = .err k) :
     (specFlush c p orc).2.1 = p ∧ (∀ a ∈ (specFlush c p orc).2.2.1, a.err ≠ none) ∧
     ∃ a, (specFlush c p orc).2.2.1.getLast? = some a ∧ a.err = some k := by
-  sorry
+  cases hr : (flushBuf (frame c p) orc).1 with
+  | none =>
+    rw [specFlush_none c p orc hr] at h
+    simp at h
+  | some k' =>
+    rw [specFlush_some c p orc k' hr] at h ⊢
+    simp only [Res.err.injEq] at h
+    subst h
+    obtain ⟨hall, hlast⟩ := (flushBuf_atts (frame c p) orc).2.2 k' hr
+    refine ⟨rfl, ?_, getLast_group_err p _ k' hlast⟩
+    intro a ha
+    simp only [List.mem_map] at ha
+    obtain ⟨b, hb, rfl⟩ := ha
+    exact hall b hb
 
 theorem specFlush_no_panic (c : Cfg α) (p : List (List α)) (orc : List Outcome) :
     (specFlush c p orc).1 ≠ .panic := by
-  sorry
+  cases hr : (flushBuf (frame c p) orc).1 with
+  | none => rw [specFlush_none c p orc hr]; simp
+  | some k => rw [specFlush_some c p orc k hr]; simp
+
+/-- the attempts of a flush, whatever its result -/
+theorem specFlush_atts_eq (c : Cfg α) (p : List (List α)) (orc : List Outcome) :
+    (specFlush c p orc).2.2.1 = (flushBuf (frame c p) orc).2.2.1.map (fun a => .group p a.err) := by
+  cases hr : (flushBuf (frame c p) orc).1 with
+  | none => rw [specFlush_none c p orc hr]
+  | some k => rw [specFlush_some c p orc k hr]
 
 /-- every attempt of a flush carries exactly the pending lines, which are then non-empty -/
 theorem specFlush_atts (c : Cfg α) (p : List (List α)) (orc : List Outcome) :
     ∀ a ∈ (specFlush c p orc).2.2.1, (∃ e, a = .group p e) ∧ frame c p ≠ [] := by
-  sorry
+  intro a ha
+  rw [specFlush_atts_eq] at ha
+  simp only [List.mem_map] at ha
+  obtain ⟨b, hb, rfl⟩ := ha
+  exact ⟨⟨b.err, rfl⟩, ((flushBuf_spec (frame c p) orc).1 b hb).2⟩
 
 /-- a flush that succeeds delivers exactly the pending lines, once -/
 theorem specFlush_delivers (c : Cfg α) (hne : c.ending ≠ []) (p : List (List α)) (orc : List Outcome) :
     (specFlush c p orc).2.2.1.flatMap SAtt.lines ++ (specFlush c p orc).2.1 = p := by
-  sorry
+  cases hr : (flushBuf (frame c p) orc).1 with
+  | none =>
+    rw [specFlush_none c p orc hr]
+    simp only [List.append_nil]
+    by_cases hp : frame c p = []
+    · have hp' : p = [] := (frame_eq_nil_iff c hne p).mp hp
+      rw [(flushBuf_atts (frame c p) orc).2.1 hp, hp']; rfl
+    · obtain ⟨fs, e, hfs⟩ := (flushBuf_atts (frame c p) orc).1 hr hp
+      rw [e, List.map_append, List.flatMap_append, lines_group_err p fs (fun a ha => (hfs a ha).2)]
+      simp [SAtt.lines]
+  | some k =>
+    rw [specFlush_some c p orc k hr]
+    simp only []
+    rw [lines_group_err p _ ((flushBuf_atts (frame c p) orc).2.2 k hr).1]; rfl
+
 
 /-! ### emit -/
 
+/-- the optional flush at the start of an emit whose line fits the capacity -/
+def pre (c : Cfg α) (p : List (List α)) (m : List α) (orc : List Outcome) :
+    (Res × List (List α) × List (SAtt α) × List Outcome) :=
+  if (frame c p).length + (m.length + c.ending.length) > c.cap then specFlush c p orc
+  else (.ok 0, p, [], orc)
+
+/-- the pass-through writes of the exact-fill corner, after the optional flush -/
+def cor (c : Cfg α) (p : List (List α)) (m : List α) (orc : List Outcome) :
+    (Option Nat × List (Attempt α) × List Outcome) :=
+  directs (cornerWrites c m) (pre c p m orc).2.2.2
+
+theorem pre_flush (c : Cfg α) (p : List (List α)) (m : List α) (orc : List Outcome)
+    (h : (frame c p).length + (m.length + c.ending.length) > c.cap) :
+    pre c p m orc = specFlush c p orc := by
+  simp only [pre, h, if_true]
+
+theorem pre_skip (c : Cfg α) (p : List (List α)) (m : List α) (orc : List Outcome)
+    (h : ¬ (frame c p).length + (m.length + c.ending.length) > c.cap) :
+    pre c p m orc = (.ok 0, p, [], orc) := by
+  simp only [pre, h, if_false]
+
+theorem pre_no_panic (c : Cfg α) (p : List (List α)) (m : List α) (orc : List Outcome) :
+    (pre c p m orc).1 ≠ .panic := by
+  by_cases h : (frame c p).length + (m.length + c.ending.length) > c.cap
+  · rw [pre_flush c p m orc h]; exact specFlush_no_panic c p orc
+  · rw [pre_skip c p m orc h]; simp
+
+theorem pre_err (c : Cfg α) (p : List (List α)) (m : List α) (orc : List Outcome) (k : Nat)
+    (h : (pre c p m orc).1 = .err k) :
+    (frame c p).length + (m.length + c.ending.length) > c.cap ∧ (pre c p m orc).2.1 = p ∧
+    (∀ a ∈ (pre c p m orc).2.2.1, a.err ≠ none) ∧
+    ∃ a, (pre c p m orc).2.2.1.getLast? = some a ∧ a.err = some k := by
+  by_cases hc : (frame c p).length + (m.length + c.ending.length) > c.cap
+  · rw [pre_flush c p m orc hc] at h ⊢
+    exact ⟨hc, specFlush_err c p orc k h⟩
+  · rw [pre_skip c p m orc hc] at h
+    simp at h
+
+theorem pre_ok (c : Cfg α) (p : List (List α)) (m : List α) (orc : List Outcome) (n : Nat)
+    (h : (pre c p m orc).1 = .ok n) : (pre c p m orc).2.1 = p ∨ (pre c p m orc).2.1 = [] := by
+  by_cases hc : (frame c p).length + (m.length + c.ending.length) > c.cap
+  · rw [pre_flush c p m orc hc] at h ⊢
+    exact Or.inr (specFlush_ok c p orc n h).1
+  · rw [pre_skip c p m orc hc]
+    exact Or.inl rfl
+
+theorem pre_atts (c : Cfg α) (p : List (List α)) (m : List α) (orc : List Outcome) :
+    ∀ a ∈ (pre c p m orc).2.2.1, (∃ e, a = .group p e) ∧ frame c p ≠ [] := by
+  by_cases hc : (frame c p).length + (m.length + c.ending.length) > c.cap
+  · rw [pre_flush c p m orc hc]; exact specFlush_atts c p orc
+  · rw [pre_skip c p m orc hc]; simp
+
+theorem pre_delivers (c : Cfg α) (hne : c.ending ≠ []) (p : List (List α)) (m : List α)
+    (orc : List Outcome) :
+    (pre c p m orc).2.2.1.flatMap SAtt.lines ++ (pre c p m orc).2.1 = p := by
+  by_cases hc : (frame c p).length + (m.length + c.ending.length) > c.cap
+  · rw [pre_flush c p m orc hc]; exact specFlush_delivers c hne p orc
+  · rw [pre_skip c p m orc hc]; rfl
+
+/-- the five ways an emit can go -/
+theorem specWrite_cases (c : Cfg α) (p : List (List α)) (m : List α) (orc : List Outcome) :
+    (m.length + c.ending.length > c.cap ∧
+      specWrite c p m orc =
+        ((direct m orc).1, p, (direct m orc).2.1.map (fun a => .bypass m a.err), (direct m orc).2.2)) ∨
+    (¬ m.length + c.ending.length > c.cap ∧
+      ((∃ k, (pre c p m orc).1 = .err k ∧
+          specWrite c p m orc =
+            (.err k, (pre c p m orc).2.1, (pre c p m orc).2.2.1, (pre c p m orc).2.2.2)) ∨
+       (∃ n, (pre c p m orc).1 = .ok n ∧ isCorner c (pre c p m orc).2.1 m = true ∧
+          (cor c p m orc).1 = none ∧
+          specWrite c p m orc =
+            (.ok m.length, (pre c p m orc).2.1,
+              (pre c p m orc).2.2.1 ++ (cor c p m orc).2.1.map (fun a => .group [m] a.err),
+              (cor c p m orc).2.2)) ∨
+       (∃ n k, (pre c p m orc).1 = .ok n ∧ isCorner c (pre c p m orc).2.1 m = true ∧
+          (cor c p m orc).1 = some k ∧
+          specWrite c p m orc =
+            (.err k, (pre c p m orc).2.1,
+              (pre c p m orc).2.2.1 ++ (cor c p m orc).2.1.map (fun a => .group [m] a.err),
+              (cor c p m orc).2.2)) ∨
+       (∃ n, (pre c p m orc).1 = .ok n ∧ isCorner c (pre c p m orc).2.1 m = false ∧
+          specWrite c p m orc =
+            (.ok m.length, (pre c p m orc).2.1 ++ [m], (pre c p m orc).2.2.1,
+              (pre c p m orc).2.2.2)))) := by
+  by_cases hbig : m.length + c.ending.length > c.cap
+  · left
+    exact ⟨hbig, by simp only [specWrite, hbig, if_true]⟩
+  · right
+    refine ⟨hbig, ?_⟩
+    have hnp := pre_no_panic c p m orc
+    simp only [cor, pre, specWrite, hbig, if_false] at hnp ⊢
+    generalize (if (frame c p).length + (m.length + c.ending.length) > c.cap then specFlush c p orc
+      else (Res.ok 0, p, [], orc)) = f at hnp ⊢
+    obtain ⟨fr, fp, fa, fo⟩ := f
+    simp only [] at hnp ⊢
+    cases fr with
+    | err k => left; exact ⟨k, rfl, rfl⟩
+    | panic => exact absurd rfl hnp
+    | ok n =>
+      right
+      simp only []
+      by_cases hc : isCorner c fp m = true
+      · simp only [hc, if_true]
+        cases hd : (directs (cornerWrites c m) fo).1 with
+        | none => left; exact ⟨n, rfl, trivial, rfl, rfl⟩
+        | some k => right; left; exact ⟨n, k, rfl, trivial, rfl, rfl⟩
+      · have hc' : isCorner c fp m = false := by simpa using hc
+        simp only [hc', Bool.false_eq_true, if_false]
+        right; right; exact ⟨n, rfl, trivial, trivial⟩
+
+
+theorem direct_cases (q : List α) (orc : List Outcome) :
+    (∃ os, direct q orc = (.ok q.length, [⟨q, none⟩], os)) ∨
+    (∃ k os, direct q orc = (.err k, [⟨q, some k⟩], os)) := by
+  unfold direct
+  split <;> simp
+
+/-- consecutive direct writes that fail, fail with the error of their last attempt -/
+theorem directs_some (l : List (List α)) (orc : List Outcome) (k : Nat)
+    (h : (directs l orc).1 = some k) :
+    ∃ a, (directs l orc).2.1.getLast? = some a ∧ a.err = some k := by
+  induction l generalizing orc with
+  | nil => rw [directs_nil] at h; simp at h
+  | cons q qs ih =>
+    rcases direct_cases q orc with ⟨os, e⟩ | ⟨k', os, e⟩
+    · have r1 : (direct q orc).1 = .ok q.length := by rw [e]
+      rw [directs_cons_ok q qs orc _ r1] at h ⊢
+      obtain ⟨a, hl, ha⟩ := ih _ h
+      exact ⟨a, by simp only [List.getLast?_append, hl]; rfl, ha⟩
+    · have r1 : (direct q orc).1 = .err k' := by rw [e]
+      rw [directs_cons_err q qs orc _ r1] at h ⊢
+      simp only [Option.some.injEq] at h
+      subst h
+      rw [e]
+      exact ⟨⟨q, some k'⟩, rfl, rfl⟩
+
+theorem isCorner_iff (c : Cfg α) (p0 : List (List α)) (m : List α) :
+    isCorner c p0 m = true ↔
+      frame c p0 = [] ∧ m.length + c.ending.length = c.cap ∧
+        (m.length = c.cap ∨ c.ending.length = c.cap) := by
+  simp only [isCorner, Bool.and_eq_true, Bool.or_eq_true, beq_iff_eq, List.isEmpty_iff, and_assoc]
+
 theorem specWrite_no_panic (c : Cfg α) (p : List (List α)) (m : List α) (orc : List Outcome) :
     (specWrite c p m orc).1 ≠ .panic := by
-  sorry
+  rcases specWrite_cases c p m orc with ⟨_, e⟩ | ⟨_, ⟨k, _, e⟩ | ⟨n, _, _, _, e⟩ | ⟨n, k, _, _, _, e⟩ | ⟨n, _, _, e⟩⟩
+  · rw [e]
+    rcases (direct_spec m orc).2 with h | ⟨k, h⟩ <;> simp [h]
+  all_goals rw [e]; simp
 
 theorem specWrite_ok_len (c : Cfg α) (p : List (List α)) (m : List α) (orc : List Outcome) (n : Nat)
     (h : (specWrite c p m orc).1 = .ok n) : n = m.length := by
-  sorry
+  rcases specWrite_cases c p m orc with ⟨_, e⟩ | ⟨_, ⟨k, _, e⟩ | ⟨n', _, _, _, e⟩ | ⟨n', k, _, _, _, e⟩ | ⟨n', _, _, e⟩⟩
+  · rw [e] at h
+    rcases (direct_spec m orc).2 with h' | ⟨k, h'⟩
+    · simp only [h', Res.ok.injEq] at h; exact h.symm
+    · simp [h'] at h
+  all_goals rw [e] at h; simp at h
+  all_goals exact h.symm
 
 /-- an oversize metric is written exactly once, alone and unmodified, during its own emit -/
 theorem specWrite_bypass (c : Cfg α) (p : List (List α)) (m : List α) (orc : List Outcome)
     (h : m.length + c.ending.length > c.cap) :
     ∃ e, (specWrite c p m orc).2.2.1 = [.bypass m e] ∧ (specWrite c p m orc).2.1 = p ∧
       (specWrite c p m orc).1 = (match e with | none => .ok m.length | some k => .err k) := by
-  sorry
+  rcases specWrite_cases c p m orc with ⟨_, e⟩ | ⟨hn, _⟩
+  · rw [e]
+    rcases direct_cases m orc with ⟨os, d⟩ | ⟨k, os, d⟩
+    · rw [d]; exact ⟨none, rfl, rfl, rfl⟩
+    · rw [d]; exact ⟨some k, rfl, rfl, rfl⟩
+  · exact absurd h hn
 
 /-- an error result is the error of the last write attempted during that very call -/
 theorem specWrite_err_attempt (c : Cfg α) (p : List (List α)) (m : List α) (orc : List Outcome) (k : Nat)
     (h : (specWrite c p m orc).1 = .err k) :
     ∃ a, (specWrite c p m orc).2.2.1.getLast? = some a ∧ a.err = some k := by
-  sorry
+  rcases specWrite_cases c p m orc with ⟨_, e⟩ | ⟨_, ⟨k', hf, e⟩ | ⟨n', _, _, _, e⟩ | ⟨n', k', _, _, hd, e⟩ | ⟨n', _, _, e⟩⟩
+  · rw [e] at h ⊢
+    rcases direct_cases m orc with ⟨os, d⟩ | ⟨k', os, d⟩
+    · rw [d] at h; simp at h
+    · rw [d] at h ⊢
+      simp only [Res.err.injEq] at h
+      subst h
+      exact ⟨.bypass m (some k'), rfl, rfl⟩
+  · rw [e] at h ⊢
+    simp only [Res.err.injEq] at h
+    subst h
+    exact (pre_err c p m orc k' hf).2.2.2
+  · rw [e] at h; simp at h
+  · rw [e] at h ⊢
+    simp only [Res.err.injEq] at h
+    subst h
+    obtain ⟨a, hl, ha⟩ := directs_some _ _ k' hd
+    refine ⟨.group [m] a.err, ?_, ha⟩
+    simp only [List.getLast?_append, List.getLast?_map]
+    unfold cor
+    rw [hl]; rfl
+  · rw [e] at h; simp at h
 
 /-- a metric whose emit failed is not kept: the pending lines are the old ones, or none -/
 theorem specWrite_err_pending (c : Cfg α) (p : List (List α)) (m : List α) (orc : List Outcome) (k : Nat)
     (h : (specWrite c p m orc).1 = .err k) :
     (specWrite c p m orc).2.1 = p ∨ (specWrite c p m orc).2.1 = [] := by
-  sorry
+  rcases specWrite_cases c p m orc with ⟨_, e⟩ | ⟨_, ⟨k', hf, e⟩ | ⟨n', _, _, _, e⟩ | ⟨n', k', hf, _, _, e⟩ | ⟨n', _, _, e⟩⟩
+  · rw [e]; exact Or.inl rfl
+  · rw [e]; exact Or.inl (pre_err c p m orc k' hf).2.1
+  · rw [e] at h; simp at h
+  · rw [e]; exact pre_ok c p m orc n' hf
+  · rw [e] at h; simp at h
 
 /-- shape of every attempt made during an emit, and the pending lines keep fitting the capacity -/
 theorem specWrite_atts (c : Cfg α) (p : List (List α)) (m : List α) (orc : List Outcome)
@@ -87,7 +402,49 @@ theorem specWrite_atts (c : Cfg α) (p : List (List α)) (m : List α) (orc : Li
       (∃ e, a = .group p e ∧ frame c p ≠ []) ∨
       (∃ e, a = .group [m] e ∧ (frame c [m]).length = c.cap) ∨
       (∃ e, a = .bypass m e ∧ m.length + c.ending.length > c.cap) := by
-  sorry
+  have hpre : ∀ a ∈ (pre c p m orc).2.2.1,
+      (∃ e, a = .group p e ∧ frame c p ≠ []) ∨
+      (∃ e, a = .group [m] e ∧ (frame c [m]).length = c.cap) ∨
+      (∃ e, a = .bypass m e ∧ m.length + c.ending.length > c.cap) := by
+    intro a ha
+    obtain ⟨⟨e, he⟩, hf⟩ := pre_atts c p m orc a ha
+    exact Or.inl ⟨e, he, hf⟩
+  have hcorner : ∀ n, (pre c p m orc).1 = .ok n → isCorner c (pre c p m orc).2.1 m = true →
+      (frame c (pre c p m orc).2.1).length ≤ c.cap ∧
+      ∀ a ∈ (pre c p m orc).2.2.1 ++ (cor c p m orc).2.1.map (fun a => SAtt.group [m] a.err),
+        (∃ e, a = .group p e ∧ frame c p ≠ []) ∨
+        (∃ e, a = .group [m] e ∧ (frame c [m]).length = c.cap) ∨
+        (∃ e, a = .bypass m e ∧ m.length + c.ending.length > c.cap) := by
+    intro n hf hc
+    obtain ⟨h0, hlen, _⟩ := (isCorner_iff c _ m).mp hc
+    refine ⟨by rw [h0]; exact Nat.zero_le _, ?_⟩
+    intro a ha
+    simp only [List.mem_append, List.mem_map] at ha
+    rcases ha with ha | ⟨b, _, rfl⟩
+    · exact hpre a ha
+    · exact Or.inr (Or.inl ⟨b.err, rfl, by rw [frame_single, List.length_append]; exact hlen⟩)
+  rcases specWrite_cases c p m orc with ⟨hbig, e⟩ | ⟨hfit, ⟨k', hf, e⟩ | ⟨n', hf, hc, _, e⟩ | ⟨n', k', hf, hc, _, e⟩ | ⟨n', hf, _, e⟩⟩
+  · rw [e]
+    refine ⟨hp, ?_⟩
+    intro a ha
+    simp only [List.mem_map] at ha
+    obtain ⟨b, _, rfl⟩ := ha
+    exact Or.inr (Or.inr ⟨b.err, rfl, hbig⟩)
+  · rw [e]
+    exact ⟨by rw [(pre_err c p m orc k' hf).2.1]; exact hp, hpre⟩
+  · rw [e]; exact hcorner n' hf hc
+  · rw [e]; exact hcorner n' hf hc
+  · rw [e]
+    refine ⟨?_, hpre⟩
+    simp only [frame_append, frame_single, List.length_append]
+    by_cases hcnd : (frame c p).length + (m.length + c.ending.length) > c.cap
+    · rw [pre_flush c p m orc hcnd] at hf ⊢
+      rw [(specFlush_ok c p orc n' hf).1]
+      simp only [frame_nil, List.length_nil]
+      omega
+    · rw [pre_skip c p m orc hcnd]
+      simp only []
+      omega
 
 /-- C19: a write happens during an emit only when the line is oversize, does not fit next to what
 is pending, or exactly fills the empty buffer -/
@@ -96,7 +453,39 @@ theorem specWrite_needed (c : Cfg α) (p : List (List α)) (m : List α) (orc : 
     m.length + c.ending.length > c.cap ∨
     (frame c p).length + (m.length + c.ending.length) > c.cap ∨
     isCorner c p m = true := by
-  sorry
+  by_cases hcnd : (frame c p).length + (m.length + c.ending.length) > c.cap
+  · exact Or.inr (Or.inl hcnd)
+  · have hs := pre_skip c p m orc hcnd
+    rcases specWrite_cases c p m orc with ⟨hbig, e⟩ | ⟨hfit, ⟨k', hf, e⟩ | ⟨n', hf, hc, _, e⟩ | ⟨n', k', hf, hc, _, e⟩ | ⟨n', hf, _, e⟩⟩
+    · exact Or.inl hbig
+    · rw [hs] at hf; simp at hf
+    · rw [hs] at hc; exact Or.inr (Or.inr hc)
+    · rw [hs] at hc; exact Or.inr (Or.inr hc)
+    · rw [e, hs] at h; exact absurd rfl h
+
+/-- with a non-empty terminator the exact-fill corner passes exactly the terminator of an empty
+metric through: one write, carrying the line `[m]` -/
+theorem corner_lines (c : Cfg α) (hne : c.ending ≠ []) (p0 : List (List α)) (m : List α)
+    (orc : List Outcome) (hc : isCorner c p0 m = true) :
+    p0 = [] ∧
+    ((directs (cornerWrites c m) orc).1 = none →
+      ((directs (cornerWrites c m) orc).2.1.map (fun a => SAtt.group [m] a.err)).flatMap SAtt.lines = [m]) ∧
+    (∀ k, (directs (cornerWrites c m) orc).1 = some k →
+      ((directs (cornerWrites c m) orc).2.1.map (fun a => SAtt.group [m] a.err)).flatMap SAtt.lines = []) := by
+  obtain ⟨h0, hlen, hor⟩ := (isCorner_iff c p0 m).mp hc
+  have hel : c.ending.length ≠ 0 := fun h => hne (List.eq_nil_of_length_eq_zero h)
+  have hm : ¬ m.length ≥ c.cap := by omega
+  have he : c.ending.length ≥ c.cap := by omega
+  have hcw : cornerWrites c m = [c.ending] := by simp only [cornerWrites, hm, he, if_true, if_false, List.nil_append]
+  refine ⟨(frame_eq_nil_iff c hne p0).mp h0, ?_⟩
+  rw [hcw]
+  rcases direct_cases c.ending orc with ⟨os, d⟩ | ⟨k', os, d⟩
+  · have r1 : (direct c.ending orc).1 = .ok c.ending.length := by rw [d]
+    rw [directs_cons_ok _ _ _ _ r1, directs_nil, d]
+    simp [SAtt.lines]
+  · have r1 : (direct c.ending orc).1 = .err k' := by rw [d]
+    rw [directs_cons_err _ _ _ _ r1, d]
+    simp [SAtt.lines]
 
 /-- conservation for one emit: what the socket accepted plus what is pending afterwards is what was
 pending before plus the line if (and only if) it was acknowledged and fits -/
@@ -106,9 +495,46 @@ theorem specWrite_conserves (c : Cfg α) (hne : c.ending ≠ []) (p : List (List
       p ++ (match (specWrite c p m orc).1 with
             | .ok _ => if m.length + c.ending.length ≤ c.cap then [m] else []
             | _ => []) := by
-  sorry
+  have hd := pre_delivers c hne p m orc
+  rcases specWrite_cases c p m orc with ⟨hbig, e⟩ | ⟨hfit, ⟨k', hf, e⟩ | ⟨n', hf, hc, hr, e⟩ | ⟨n', k', hf, hc, hr, e⟩ | ⟨n', hf, _, e⟩⟩
+  · rw [e]
+    have hnf : ¬ m.length + c.ending.length ≤ c.cap := by omega
+    simp only [lines_bypass, List.nil_append, hnf, if_false]
+    rcases (direct_spec m orc).2 with h | ⟨k, h⟩ <;> simp [h]
+  · rw [e]
+    simp only [hd, List.append_nil]
+  · rw [e]
+    obtain ⟨h0, h1, _⟩ := corner_lines c hne _ m (pre c p m orc).2.2.2 hc
+    have hfit' : m.length + c.ending.length ≤ c.cap := by omega
+    simp only [List.flatMap_append, hfit', if_true]
+    unfold cor at hr ⊢
+    rw [h1 hr, h0, List.append_nil]
+    rw [h0, List.append_nil] at hd
+    rw [hd]
+  · rw [e]
+    obtain ⟨h0, _, h2⟩ := corner_lines c hne _ m (pre c p m orc).2.2.2 hc
+    simp only [List.flatMap_append]
+    unfold cor at hr ⊢
+    rw [h2 k' hr, h0, List.append_nil, List.append_nil, List.append_nil]
+    rw [h0, List.append_nil] at hd
+    exact hd
+  · rw [e]
+    have hfit' : m.length + c.ending.length ≤ c.cap := by omega
+    simp only [hfit', if_true]
+    rw [← List.append_assoc, hd]
+
 
 /-! ### histories -/
+
+theorem deliveredLines_cons (o : SOpObs α) (os : List (SOpObs α)) :
+    deliveredLines (o :: os) = o.atts.flatMap SAtt.lines ++ deliveredLines os := by
+  simp only [deliveredLines, List.flatMap_cons]
+
+theorem specFlush_pending (c : Cfg α) (p : List (List α)) (orc : List Outcome) :
+    (specFlush c p orc).2.1 = p ∨ (specFlush c p orc).2.1 = [] := by
+  cases hr : (flushBuf (frame c p) orc).1 with
+  | none => rw [specFlush_none c p orc hr]; exact Or.inr rfl
+  | some k => rw [specFlush_some c p orc k hr]; exact Or.inl rfl
 
 /-- C06/C07 conservation over any history and any pattern of write failures: the lines accepted by
 the socket, in order, followed by the lines still pending, are exactly the lines that were pending
@@ -118,23 +544,77 @@ theorem specOps_conservation (c : Cfg α) (hne : c.ending ≠ []) (ops : List (O
     (p : List (List α)) (orc : List Outcome) :
     deliveredLines (specOps c p ops orc).1 ++ (specOps c p ops orc).2.1 =
       p ++ acceptedBuffered c ops (specOps c p ops orc).1 := by
-  sorry
+  induction ops generalizing p orc with
+  | nil => simp only [specOps, deliveredLines, acceptedBuffered, List.flatMap_nil, List.nil_append,
+      List.append_nil]
+  | cons op ops ih =>
+    cases op with
+    | emit m =>
+      have ih' := ih (specWrite c p m orc).2.1 (specWrite c p m orc).2.2.2
+      have hw := specWrite_conserves c hne p m orc
+      simp only [specOps, deliveredLines_cons, acceptedBuffered]
+      rw [List.append_assoc, ih', ← List.append_assoc, hw, List.append_assoc]
+      rfl
+    | flush =>
+      have ih' := ih (specFlush c p orc).2.1 (specFlush c p orc).2.2.2
+      have hw := specFlush_delivers c hne p orc
+      simp only [specOps, deliveredLines_cons, acceptedBuffered]
+      rw [List.append_assoc, ih', ← List.append_assoc, hw]
+
+theorem specDrop_atts_eq (c : Cfg α) (p : List (List α)) (orc : List Outcome) :
+    (specDrop c p orc).1 = (specFlush c p orc).2.2.1 := by
+  rw [specFlush_atts_eq]; rfl
 
 /-- the drop writes the remaining lines, once, if its write is accepted -/
 theorem specDrop_delivers (c : Cfg α) (hne : c.ending ≠ []) (p : List (List α)) (orc : List Outcome)
     (h : ∀ a ∈ (specDrop c p orc).1, a.err = none) :
     (specDrop c p orc).1.flatMap SAtt.lines = p := by
-  sorry
+  rw [specDrop_atts_eq] at h ⊢
+  have hd := specFlush_delivers c hne p orc
+  cases hres : (specFlush c p orc).1 with
+  | ok n =>
+    rw [(specFlush_ok c p orc n hres).1, List.append_nil] at hd
+    exact hd
+  | err k =>
+    obtain ⟨_, _, a, hl, ha⟩ := specFlush_err c p orc k hres
+    have := h a (List.mem_of_getLast? hl)
+    rw [ha] at this
+    simp at this
+  | panic => exact absurd hres (specFlush_no_panic c p orc)
 
 theorem specDrop_atts (c : Cfg α) (p : List (List α)) (orc : List Outcome) :
     ∀ a ∈ (specDrop c p orc).1, (∃ e, a = .group p e) ∧ frame c p ≠ [] := by
-  sorry
+  rw [specDrop_atts_eq]; exact specFlush_atts c p orc
 
 /-- pending lines always fit the capacity; no operation of any history panics -/
 theorem specOps_inv (c : Cfg α) (ops : List (Op α)) (p : List (List α)) (orc : List Outcome)
     (hp : (frame c p).length ≤ c.cap) :
     (frame c (specOps c p ops orc).2.1).length ≤ c.cap ∧
     ∀ o ∈ (specOps c p ops orc).1, o.res ≠ .panic := by
-  sorry
+  induction ops generalizing p orc with
+  | nil => exact ⟨hp, by simp [specOps]⟩
+  | cons op ops ih =>
+    cases op with
+    | emit m =>
+      obtain ⟨i1, i2⟩ := ih (specWrite c p m orc).2.1 (specWrite c p m orc).2.2.2
+        (specWrite_atts c p m orc hp).1
+      simp only [specOps, List.mem_cons]
+      refine ⟨i1, ?_⟩
+      intro o ho
+      rcases ho with rfl | ho
+      · exact specWrite_no_panic c p m orc
+      · exact i2 o ho
+    | flush =>
+      have hp' : (frame c (specFlush c p orc).2.1).length ≤ c.cap := by
+        rcases specFlush_pending c p orc with e | e
+        · rw [e]; exact hp
+        · rw [e]; exact Nat.zero_le _
+      obtain ⟨i1, i2⟩ := ih (specFlush c p orc).2.1 (specFlush c p orc).2.2.2 hp'
+      simp only [specOps, List.mem_cons]
+      refine ⟨i1, ?_⟩
+      intro o ho
+      rcases ho with rfl | ho
+      · exact specFlush_no_panic c p orc
+      · exact i2 o ho
 
 end Mlw
